@@ -573,10 +573,16 @@ def run_leak(ctx, rng, job):
         def __hash__(self):
             raise Boom('hash')
 
+    class BoolBoom(str):
+        def __bool__(self):
+            raise Boom('bool')
+
     class K:
         pass
     classImplements(K, IR)
     ob = K()
+    IRtmp = util.mkiface('IRtmp', module=mod)
+    import weakref
     N = 1500 if job['tier'] == 'quick' else 6000
     for flavour, Base in FLAVOURS.items():
         class Lk(Base.LookupClass):
@@ -622,6 +628,9 @@ def run_leak(ctx, rng, job):
             'lookup1-unhashable-provided': lambda: reg.lookup1(IR, Unhashable()),
             'lookup-bad-name': lambda: reg.lookup([IR], IP, 5),
             'lookup-lazy-raising-required': lambda: reg.lookup(lazy_boom(), IP),
+            'lookup-name-bool-raises': lambda: reg.lookup([IR], IP, BoolBoom('n')),
+            'lookup1-name-bool-raises': lambda: reg.lookup1(IR, IP, BoolBoom('n')),
+            'adapter_hook-name-bool-raises': lambda: reg.adapter_hook(IP, ob, BoolBoom('n')),
         }
         booms = {
             'lookup-raising-uncached': lambda: reg.lookup([IR, IR], IP, 'q'),
@@ -630,13 +639,20 @@ def run_leak(ctx, rng, job):
         }
 
         def meter(label, fn, boom=False):
-            lk.boom = boom
+            lk.boom = False
 
             def once():
                 try:
                     fn()
                 except (Boom, TypeError, ValueError):
                     pass
+            # a value cached next to what the scenario touches; it must be released once it is unregistered, whatever
+            # the scenario left behind (a reference leaked to a cache dictionary keeps everything cached in it alive)
+            tmpv = Val('tmp-' + label)
+            reg.register([IRtmp], IP, '', tmpv)
+            reg.lookup([IRtmp], IP, '')
+            reg.lookup1(IRtmp, IP, '')
+            lk.boom = boom
             for _ in range(50):
                 once()
             gc.collect()
@@ -648,6 +664,13 @@ def run_leak(ctx, rng, job):
             r1 = (sys.getrefcount(IR), sys.getrefcount(IP), sys.getrefcount(sentinel_default), sys.getrefcount(fac), sys.getrefcount(ob))
             b1 = sys.getallocatedblocks()
             lk.boom = False
+            reg.unregister([IRtmp], IP, '')
+            wr = weakref.ref(tmpv)
+            del tmpv
+            gc.collect()
+            ctx.ev()
+            if wr() is not None:
+                ctx.violation('cached-value-kept-alive-after-unregistration', {'flavour': flavour, 'scenario': label}, abort=False)
             ctx.ev()
             ctx.count('leak_scenarios')
             ctx.count('leak_calls', N)
